@@ -59,13 +59,16 @@ def obligations(repo):
                     min_checks=30, witness={"replayer": "cop", "override": {"loops": False, "annotate": [], "unwind": 6,
                                             "unwindset": [DECLOOP + ":3"], "object_bits": 10}}))
     # recursion depth: the decoder carries its nesting depth as a parameter (since the repo fix); the contract demands
-    # depth <= COP_DEPTH_LIMIT of every call, so the recursive call's precondition is the bound on the C stack
-    obs.append(dict(id="C16.deser.depth.array", prop="C16", harness=HARNESS, entry="h_safe", annotate=COPANN,
-                    defines={"COP_VIEW_SAFE": 1, "COP_SAFE_CLASS": 2},
+    # depth <= COP_DEPTH_LIMIT of every call AND depth == ghost count of active frames (two inserted ghost statements), so the
+    # recursive call's precondition is the bound on the C stack and a call that does not pass depth + 1 fails it
+    obs.append(dict(id="C16.deser.depth.array", prop="C16", harness=HARNESS, entry="h_safe",
+                    annotate=[("src/nanovm/cop_protocol.c", "contracts/loops/cop_protocol.c.depth.loops")],
+                    defines={"COP_VIEW_SAFE": 1, "COP_SAFE_CLASS": 2, "COP_DEPTH_GHOST": 1},
                     gi_flags=rec("deserialize_value_at"), replace=HEAPREPL, loops=True, unwind="auto",
                     strength="X", functions=["deserialize_value_at"], timeout=900,
                     must_have=[r"deserialize_value_at\.precondition", r"loop_invariant_step", r"COVER"],
                     min_checks=30, witness={"replayer": "cop", "override": {"loops": False, "annotate": [], "unwind": 6,
+                                            "defines": {"COP_VIEW_SAFE": 1, "COP_SAFE_CLASS": 2},
                                             "unwindset": [DECLOOP + ":3"], "object_bits": 10}}))
     # the public entry point: starts the recursion at depth 0 (helper replaced by the contract proved above)
     for c, nm in [(0, "scalar"), (1, "string"), (2, "array")]:
